@@ -64,14 +64,22 @@ def gen_history(rng, nT, kind, length):
     return ops
 
 
+_SPENT = [0.0]   # seconds spent shrinking (shrinking only makes replays smaller)
+
+
 def shrink_ops(g, sr, kind, ops, idx):
     """drop operations before the failing one while the disagreement persists"""
+    import time
     ops = ops[: idx + 1]
     target = ops[-1]
     changed = True
+    t0 = time.time()
     while changed:
         changed = False
         for i in range(len(ops) - 1):
+            if time.time() - t0 > 40 or _SPENT[0] + (time.time() - t0) > 120:
+                _SPENT[0] += time.time() - t0
+                return ops
             cand = ops[:i] + ops[i + 1:]
             r = run_lm([{"g": g, "sr": sr, "kind": kind, "ops": cand, "fresh_compare": True}])[0]
             if "build_err" in r:
@@ -81,6 +89,7 @@ def shrink_ops(g, sr, kind, ops, idx):
                 ops = cand
                 changed = True
                 break
+    _SPENT[0] += time.time() - t0
     return ops
 
 
